@@ -156,8 +156,24 @@ impl<D: DataMut, B: Backend> VmpPMatToMut<B> for VmpPMat<D, B> {
     }
 }
 
-impl<D: Data, B: Backend> VmpPMat<D, B> {
+impl<D: DataRef, B: Backend> VmpPMat<D, B> {
+    /// Constructs a `VmpPMat` from raw parts.
+    ///
+    /// # Panics
+    ///
+    /// Panics if the buffer holds fewer than `n * rows * cols_in * cols_out * size` scalars or is not aligned
+    /// for the scalar type.
     pub fn from_data(data: D, n: usize, rows: usize, cols_in: usize, cols_out: usize, size: usize) -> Self {
+        super::znx_base::assert_from_data_fits(
+            "VmpPMat",
+            data.as_ref(),
+            n,
+            rows.checked_mul(cols_in)
+                .and_then(|x| x.checked_mul(cols_out))
+                .and_then(|x| x.checked_mul(size)),
+            size_of::<B::ScalarPrep>(),
+            align_of::<B::ScalarPrep>(),
+        );
         Self {
             data,
             n,
